@@ -30,6 +30,7 @@ func (e *Engine) doCommit(workers int) error {
 
 // Commit commits and runs the commit-time oracles.
 func (e *Engine) Commit(workers int) error {
+	e.quiet = false
 	dirty := e.St.DeltasWithoutTempAddresses()
 	for attempt := 0; ; attempt++ {
 		before := len(e.L.Log)
@@ -122,6 +123,7 @@ func (e *Engine) Reopen(workers int) error {
 	}
 	e.retireAll()
 	e.St = NewStorage(e.L)
+	e.quiet = e.Or.QuietAfterEvict
 	e.Stats.label("reopen")
 	e.Stats.Reopens++
 	e.Stats.pendingDecodedMutation = true
@@ -135,6 +137,7 @@ func (e *Engine) Evict(workers int) error {
 	}
 	e.retireAll()
 	e.St.DropCache()
+	e.quiet = e.Or.QuietAfterEvict
 	e.Stats.label("evict")
 	e.Stats.Reopens++
 	e.Stats.pendingDecodedMutation = true
@@ -306,6 +309,12 @@ func (e *Engine) afterStep() error {
 		k *= 1 + e.modelSize()/3000
 	}
 	full := k > 0 && (e.step+1)%k == 0
+	if e.quiet {
+		// after an eviction nothing is loaded: until the next commit only the operations themselves touch the
+		// storage, so that slabs are mutated and removed while they are NOT in the read cache
+		e.Stats.label("ops_on_cold_storage")
+		return nil
+	}
 	if full {
 		if err := e.CompareAll(); err != nil {
 			return err
